@@ -30,6 +30,7 @@ class Compiler:
         self.times_file_compiled = collections.defaultdict(int)
         self.internal_prefix_to_state = {}
         self.all_files_compiled = False
+        self.files_being_compiled = []
         if _VERIF:
             self.verif_trace = []
 
@@ -47,7 +48,11 @@ class Compiler:
         }
         self.internal_prefix_to_state[self.next_internal_symbol_prefix] = state
         self.next_internal_symbol_prefix += 1
-        return self.compile_block(state, file.body, start)
+        self.files_being_compiled.append(file.filename)
+        try:
+            return self.compile_block(state, file.body, start)
+        finally:
+            self.files_being_compiled.pop()
 
 
     def compile_block(self, state, block, start):
